@@ -140,7 +140,11 @@ func expectAssign(t *gen.Type, v c04Val) c04Expect {
 	case "litvar":
 		// a literal containing a variable is not a constant: treated like a variable of its type
 		ok := t.Eq(v.t) || t.K == gen.Any
-		return c04Expect{accept: ok, typeofS: dynTypeof(t, v.t), open: !ok && convertibleConst(t, v.t)}
+		// open only where the implementation is known to deviate from the text: it converts a literal of
+		// basic-typed variables element-wise (`[n]` to []any). A literal holding a composite variable
+		// (`[arr]`, `{k:m}`) has a fixed type in both documents and implementation: judged.
+		basicElem := v.t.Sub != nil && !v.t.Sub.IsComposite() && v.t.Sub.K != gen.Any
+		return c04Expect{accept: ok, typeofS: dynTypeof(t, v.t), open: !ok && convertibleConst(t, v.t) && basicElem}
 	}
 	panic(v.kind)
 }
@@ -333,7 +337,7 @@ func init() {
 		Level: "exploration",
 		Rule:  "exhaustive matrix: every target type x every value descriptor (variable, constant literal in two spellings, empty and nested empty literals, literal containing a variable, function result, and expressions made of constants: group, concatenation, slice, repetition, index) x 7 contexts (assignment, parameter, variadic parameter, return, array element, map field, inferred declaration) over all types of nesting depth <= 1 (quick) / <= 2 (thorough), plus the operator table (13 operators x all ordered type pairs, variables and constants) and unary, index, slice, field, assertion, condition and range contexts, and the relation `x := []` = `x:[]any` (7 spellings x 20 uses); one tiny program per cell; acceptance and printed typeof compared with the transcribed rules. distinct = distinct cells",
 		Assumptions: []string{
-			"cells the specification leaves open are listed and not judged: a literal that contains variables assigned to an any-based composite type (the text says it is treated like a variable; the implementation converts element-wise)",
+			"cells the specification leaves open are listed and not judged: a literal that contains variables assigned to an any-based composite type (the text says it is treated like a variable; the implementation converts element-wise) - only for literals of num/string/bool variables; a literal holding an array or map variable is judged",
 		},
 		NumCases: func(tier string) int {
 			st := c04Setup(tier)
@@ -556,9 +560,44 @@ func c04InferredVsTyped(c *core.Ctx) {
 	}
 }
 
+// c04ReturnNone: `return` without a value has type none; it fits a function without result type and an
+// event handler, never a function with a result type - wherever in the body it stands.
+func c04ReturnNone(c *core.Ctx, st *c04State) {
+	for _, t := range st.types {
+		ts, z := t.String(), zeroLit(t)
+		for si, shape := range []string{
+			"func fn:%s\n    return\nend\nprint (typeof (fn))\n",
+			"func fn:%s n:num\n    if n > 0\n        return\n    end\n    return (zerov)\nend\nprint (typeof (fn 0))\n",
+			"func fn:%s n:num\n    while n > 0\n        return\n    end\n    return (zerov)\nend\nprint (typeof (fn 0))\n",
+			"func fn:%s n:num\n    for i := range n\n        if i > 1\n            return\n        end\n    end\n    return (zerov)\nend\nprint (typeof (fn 0))\n",
+			"func fn:%s n:num\n    if n > 0\n        return (zerov)\n    else\n        return\n    end\nend\nprint (typeof (fn 1))\n",
+		} {
+			src := strings.ReplaceAll(fmt.Sprintf(shape, ts), "(zerov)", z)
+			c.Cover("context", "return-none")
+			c04Judge(c, fmt.Sprintf("return-none|%d|%s", si, ts), src, c04Expect{accept: false})
+		}
+		// control: the same shapes with a value everywhere are accepted
+		src := strings.ReplaceAll(fmt.Sprintf("func fn:%s n:num\n    if n > 0\n        return (zerov)\n    end\n    return (zerov)\nend\nprint (typeof (fn 0))\n", ts), "(zerov)", z)
+		dyn := ts
+		if t.K == gen.Any {
+			dyn = "bool" // typeof reports the dynamic type of the value held
+		}
+		c04Judge(c, "return-value|"+ts, src, c04Expect{accept: true, typeofS: dyn})
+	}
+	for si, src := range []string{
+		"func fn\n    return\nend\nfn\nprint \"ok\"\n", "func fn n:num\n    if n > 0\n        return\n    end\n    print n\nend\nfn 1\n",
+		"on key k:string\n    if k == \"a\"\n        return\n    end\n    print k\nend\n",
+	} {
+		c04Judge(c, fmt.Sprintf("return-none-procedure|%d", si), src, c04Expect{accept: true})
+	}
+}
+
 func c04Other(c *core.Ctx, st *c04State, k int) {
 	if k == 0 {
 		c04InferredVsTyped(c)
+	}
+	if k == 1 {
+		c04ReturnNone(c, st)
 	}
 	for _, t := range st.types {
 		ts := t.String()
